@@ -8,6 +8,8 @@ props = [json.loads(l) for l in open(os.path.join(VERIF, "properties.jsonl"))]
 
 TECH = "static analysis over rustc MIR (custom rustc_private driver + python rules)"
 CLAIMS = {
+    "C05": ("provenance of every allocation size in the reading set (CONST|LEN|LIMIT|guard value, parameters checked at callers), guard polarity on the MIR comparison operator, declared-count provenance, overflow asserts on input-derived operands, closed panic-site inventory",
+            "static analysis: backward provenance slicing + call-graph closure + panic-site inventory over MIR"),
     "C06": ("dominance query: no Ok constructed on the Err edge of any read result in the reading set (both decoders, readers); decoder/validator variant table agreement",
             "static analysis: dominance/edge-region query + variant-partitioned path summaries over MIR"),
     "C13": ("no partial Write::write on caller sinks, no dropped byte counts, no discarded sink results, no explicit panic in Writer::drop - on every function of the crate",
